@@ -244,9 +244,6 @@ func describe(proto string, b []byte) (ref, bool) {
 			r.tokR = h32(raw)
 		}
 	}
-	if r.kind == "h" {
-		r.tokF = 0
-	}
 	return r, true
 }
 
